@@ -184,6 +184,33 @@ theorem linearizable (h : Reachable eqv s) :
     ∀ t, linOf s.lin t = (regsOf (s.thr t).done).reverse ++ pending (s.thr t).pc :=
   ⟨(reachable_inv h).lin, reachable_linInv h⟩
 
+/-- (c)/(d), concurrent form.  Take any registration event `e` of the linearisation and let `T` be the table
+    built by the events before it (a prefix of the current table, with unique keys).  If `T` already holds,
+    at slot `i`, an object with the same key (case-insensitively), then: if it is `ObjectEqual` to the one
+    being registered, the call returned exactly slot `i`; otherwise it failed as a conflict with slot `i`;
+    and in both cases the table after the call is still `T`. -/
+theorem reregistration_linearised (h : Reachable eqv s) (pre post : List LinEv) (e : LinEv)
+    (hl : s.lin = pre ++ e :: post) :
+    ∃ T, Spec.replay eqv pre [] = some T ∧ Spec.KeysUnique T ∧ (∃ x, s.tbl = T ++ x) ∧
+      ∀ (i : Nat) (x : Obj), T[i]? = some x → keyEq e.op.obj.key x.key = true →
+        (eqv e.op.obj x = true → e.res = Res.slot i ∧ Spec.replay eqv (pre ++ [e]) [] = some T) ∧
+        (eqv e.op.obj x = false → e.res = Res.conflict i ∧ Spec.replay eqv (pre ++ [e]) [] = some T) := by
+  have hlin := (reachable_inv h).lin
+  rw [hl] at hlin
+  obtain ⟨T, hpre, hu, hr, x, hx⟩ := Spec.replay_split hlin
+  obtain ⟨y, hy⟩ := Spec.register_prefix eqv T e.op.obj (Spec.injOf e.res)
+  refine ⟨T, hpre, hu, ⟨y ++ x, by rw [hx, hy, List.append_assoc]⟩, ?_⟩
+  intro i o hi hk
+  constructor
+  · intro he
+    have hreg := Spec.register_identical (Spec.injOf e.res) hu hi hk he
+    rw [hreg] at hr
+    exact ⟨hr.symm, Spec.replay_snoc hpre (by rw [hreg, ← hr])⟩
+  · intro he
+    have hreg := Spec.register_conflict (Spec.injOf e.res) hu hi hk he
+    rw [hreg] at hr
+    exact ⟨hr.symm, Spec.replay_snoc hpre (by rw [hreg, ← hr])⟩
+
 /-! Sequential specification: what each linearised call does (these transfer to every concurrent
 execution through `linearizable`). -/
 
@@ -251,7 +278,7 @@ theorem lookup_agree (h : Reachable eqv s) (t t' : Nat) (k : String) (n j n' : N
       subst e2
       exact (Spec.lookup_some hlk).2.2.2
   rw [hc']
-  simp [Spec.atSlot, List.getElem?_take, hj, ho', hne]
+  simp [Spec.atSlot, hj, ho', hne]
 
 /-! ### non-vacuity: concrete executions (checked by kernel evaluation of the model) -/
 section Examples
@@ -273,6 +300,9 @@ example : (Op.getSlot 0, Res.atSlot 1 (some (Cell.full ⟨"Ab", 1⟩))) ∈ (exS
 example : (Op.getKey "AB", Res.byKey 1 (some (0, Cell.full ⟨"Ab", 1⟩))) ∈ (exState.thr 1).done := by decide
 example : loadedCount ((run exEqv (init exProgs) (List.replicate 12 0 ++ [1, 1])).thr 1).pc = some 1 := by decide
 example : (exState.lin.map (·.res)) = [Res.slot 0, Res.conflict 0, Res.slot 0] := by decide
+example : ∃ pre post e, exState.lin = pre ++ e :: post ∧ e.res = Res.conflict 0 :=
+  ⟨[⟨0, { obj := ⟨"Ab", 1⟩ }, .slot 0⟩], [⟨0, { obj := ⟨"Ab", 1⟩ }, .slot 0⟩], ⟨0, { obj := ⟨"aB", 1⟩ }, .conflict 0⟩,
+    by decide, rfl⟩
 example : Spec.KeysUnique [⟨"Ab", 1⟩, ⟨"c", 2⟩] := by
   intro i j oi oj hi hj hk
   match i, j with
